@@ -245,7 +245,10 @@ func check(c Case, r *ev.Rec) error {
 	if reps < 1 {
 		reps = 1
 	}
-	type mismatch struct{ g, k int; name, got string }
+	type mismatch struct {
+		g, k      int
+		name, got string
+	}
 	var mu sync.Mutex
 	var bad []mismatch
 	used := make([]map[int]bool, len(c.Ops))
